@@ -17,6 +17,7 @@ func init() {
 	structuralChecks["owned-writes"] = checkOwnedWrites
 	structuralChecks["owned-calls"] = checkOwnedCalls
 	structuralChecks["nonblocking"] = checkNonblocking
+	structuralChecks["no-blocking-peer-send"] = checkNoBlockingPeerSend
 	structuralChecks["no-mutable-globals"] = checkNoMutableGlobals
 	structuralChecks["mapinv-writes"] = checkMapInvWrites
 }
@@ -539,4 +540,84 @@ func (v *Verifier) inRepo2(fn *ssa.Function) bool {
 		root = root.Parent()
 	}
 	return root.Pkg != nil && strings.HasPrefix(root.Pkg.Pkg.Path(), repoMod)
+}
+
+// checkNoBlockingPeerSend: code that runs on the broker or dealer goroutine
+// (every function or action closure declared "on broker" / "on dealer", with
+// its in-place callees) never performs a blocking send of a wamp.Message: a
+// peer, including the realm's meta peer, is only ever offered a message with a
+// select that has a default case. (Blocking sends on other channels - the
+// reply channels of meta procedures, whose requester is waiting - are not
+// covered by this check.)
+func checkNoBlockingPeerSend(v *Verifier) []structResult {
+	var keys []string
+	for k, con := range v.db.Funcs {
+		if con.On == "broker" || con.On == "dealer" {
+			keys = append(keys, k)
+		}
+	}
+	sort.Strings(keys)
+	var bad []string
+	n := 0
+	for _, k := range keys {
+		fn := v.fnByKey[k]
+		if fn == nil {
+			continue
+		}
+		n++
+		v.peerSends(fn, map[*ssa.Function]bool{}, &bad, 0)
+	}
+	res := structResult{Name: "structural#no-blocking-peer-send", OK: len(bad) == 0, Detail: strings.Join(bad, "; ")}
+	if res.OK {
+		res.Detail = fmt.Sprintf("%d functions and action closures running on the broker or dealer goroutine, none with a blocking send of a wamp.Message", n)
+	}
+	return []structResult{res}
+}
+
+func isMessageChan(t types.Type) bool {
+	ch, ok := t.Underlying().(*types.Chan)
+	if !ok {
+		return false
+	}
+	n, ok := types.Unalias(ch.Elem()).(*types.Named)
+	return ok && n.Obj().Name() == "Message" && n.Obj().Pkg() != nil && strings.HasSuffix(n.Obj().Pkg().Path(), "/wamp")
+}
+
+func (v *Verifier) peerSends(fn *ssa.Function, seen map[*ssa.Function]bool, bad *[]string, depth int) {
+	if seen[fn] || depth > 8 {
+		return
+	}
+	seen[fn] = true
+	for _, b := range fn.Blocks {
+		for _, ins := range b.Instrs {
+			switch x := ins.(type) {
+			case *ssa.Send:
+				if isMessageChan(x.Chan.Type()) {
+					*bad = append(*bad, fmt.Sprintf("blocking send of a message in %s (%s)", funcDisplayName(fn), v.fset.Position(x.Pos())))
+				}
+			case *ssa.Select:
+				if x.Blocking {
+					for _, st := range x.States {
+						if st.Dir == types.SendOnly && isMessageChan(st.Chan.Type()) {
+							*bad = append(*bad, fmt.Sprintf("blocking select sending a message in %s (%s)", funcDisplayName(fn), v.fset.Position(x.Pos())))
+						}
+					}
+				}
+			case *ssa.Call:
+				c := x.Common()
+				callee := c.StaticCallee()
+				if callee == nil {
+					if mc, ok := c.Value.(*ssa.MakeClosure); ok {
+						callee = mc.Fn.(*ssa.Function)
+					}
+				}
+				if callee == nil || callee.Blocks == nil {
+					continue
+				}
+				if v.inRepo(callee) || callee.Parent() != nil {
+					v.peerSends(callee, seen, bad, depth+1)
+				}
+			}
+		}
+	}
 }
